@@ -139,3 +139,26 @@ def run_async_job(job):
     if S is not None:
         S.disable()
     return out
+
+
+def warmup_exec_job(job):
+    """C06, outside an episode: AsyncGraph.warmup() that was NOT asked to profile a node must not execute that node's step function (a step
+    function executes once per tick of an episode and never otherwise).  profile is given as a dict naming only one node - the documented
+    per-node form; the nodes it omits default to "do not profile" (seeded change C06-h made them default to True: ten executions per node)."""
+    import jax
+
+    import rex.asynchronous as ra
+
+    from . import arun, gen, probes
+    out = []
+    cfg = job["cfg"]
+    for js in (True, False):
+        nodes = gen.build_nodes(cfg)
+        g = ra.AsyncGraph(nodes=dict(nodes), supervisor=nodes[cfg["sup"]], clock=arun.Clock.SIMULATED, real_time_factor=0)
+        gs0 = g.init(jax.random.PRNGKey(job.get("seed", 0)))
+        probes.LOG.clear()
+        g.warmup(gs0, jit_step=js, profile={cfg["nodes"][0]["name"]: False})
+        jax.effects_barrier()
+        log = probes.LOG.snapshot()
+        out.append(dict(jit_step=js, executions=len(log), nodes=sorted({int(e["nid"]) for e in log})))
+    return dict(results=out)
